@@ -29,7 +29,7 @@ class _AppSpec(Spec):
     per_path_timeout = 20.0
     outside = ["documents longer than the pool's / more than the stated number of free cells", "documents containing CR or NUL"]
 
-    def job(self, harness, params, budget=200.0):
+    def job(self, harness, params, budget=100.0):
         p = dict(params)
         p["prop"] = self.prop
         return {"harness": harness, "params": p, "per_path_timeout": self.per_path_timeout, "budget_s": budget}
@@ -223,3 +223,91 @@ class C14(_AppSpec):
 
     def bounds_text(self, tier):
         return {"documents": "G1 length 0..1 (quick) / 0..2 (thorough); mini (quick, every second position) / core pool one cell; pragma-only and no-final-newline skeletons", "files": "1 or 2 per invocation", "mode": "scan"}
+
+
+class C16(_AppSpec):
+    prop = "C16"
+    rule_text = ("one symbolic path = one joint behaviour of six entry points on the same symbolic document (CR allowed): main scan <file>, main scan-stdin, PyMarkdownApi.scan_string, .scan_path, "
+                 "main fix <file>, PyMarkdownApi.fix_string; assertion: identical (line, column, rule id, rule name, extra) lists / identical fixed text (symbolic string equality), no temp file left; "
+                 "the concrete replay additionally runs --log-level DEBUG/INFO, --log-file, --stack-trace with the real logging handlers; distinct = distinct (rule ids, inapplicable routes)")
+    assumptions = [a.replace("except NUL and CR", "except NUL (CR is included here: CR-LF and lone CR line ends)") for a in _ASSUME] + [
+        "scan_string/fix_string reject the empty string by documented contract: those routes are compared for non-empty documents only"]
+    outside = ["documents longer than the pool's / more than the stated number of free cells",
+               "log level cannot influence results through the logging statements removed by the purity screen (by construction); ApplicationLogging handlers are exercised only in the concrete replay", "non-UTF-8 locale"]
+
+    def shards(self, tier):
+        out = []
+        if tier == "quick":
+            for s in docs.g1_shards(1) + docs.g2_shards(["a\r\nb", "# a\n\nb"], replace=True) + _strided(docs.g2_shards(docs.load_pool("mini"), replace=True), 3):
+                out.append(self.job("c16", s, budget=150.0))
+            for s in docs.g1_shards(1):
+                out.append(self.job("c16", dict(s, disable="md047", stack_trace=True)))
+        else:
+            for s in docs.g1_shards(2) + docs.g2_shards(["a\r\nb", "# a\n\nb", "a\rb\r\n"] + docs.load_pool("core"), replace=True):
+                out.append(self.job("c16", s, budget=300.0))
+            for s in docs.g1_shards(1) + docs.g2_shards(docs.load_pool("mini")[:4], replace=True):
+                out.append(self.job("c16", dict(s, disable="md047", stack_trace=True)))
+        return out
+
+    def bounds_text(self, tier):
+        return {"documents": "G1 length 0..1 (quick) / 0..2 (thorough) with CR allowed; CR-LF skeletons; mini pool every third position (quick) / core pool (thorough)", "rule selections": "default; md047 disabled through -d and through disable_rule_by_identifier"}
+
+
+# first documents that set state a later file could inherit: link definitions, heading history,
+# list state, pragmas, counters, front matter-like text, html blocks, code fences left open
+_C13_FIRST = [
+    "[a]: /u\n\n# h\n",
+    "# a\n\n### b\n\n# a\n",
+    "1. a\n1. b\n- c\n+ d\n",
+    "<!-- pyml disable-num-lines 5 md041,md047-->\nx",
+    "```text\nunclosed\n",
+    "*a* __b__ <div>\n\n    code\n",
+    "> q\n> - l\n\n\n\n* * *\n",
+]
+_C13_SECOND = ["[a]\n", "## b\n", "1. x\n", "x", "- a\n+ b\n", "# a\n", "***\n___\n"]
+
+
+class C13(_AppSpec):
+    prop = "C13"
+    per_path_timeout = 30.0
+    rule_text = ("one symbolic path = one joint behaviour of processing [d1, d2] in one invocation and d2 alone in a fresh one (scan and fix; or one PyMarkdownApi object reused); "
+                 "assertion: failures, pragma errors, fixed bytes and 'Fixed:' announcement of d2 are identical; d1 from a pool of state-setting documents, d2 with a symbolic cell (quick) / both with a symbolic cell (thorough); "
+                 "distinct = distinct sets of rule ids reported for d2")
+
+    def readable(self, case):
+        from checks.scan_real import docs_of_c13
+
+        d1, d2 = docs_of_c13(case)
+        return json.dumps({"d1": d1, "d2": d2, "mode": case["params"].get("mode"), "api": case["params"].get("api")}, ensure_ascii=True)
+
+    def shards(self, tier):
+        out = []
+
+        def holes(sk, stride):
+            return list(range(0, len(sk), stride))
+
+        if tier == "quick":
+            for i, first in enumerate(_C13_FIRST):
+                second = _C13_SECOND[i % len(_C13_SECOND)]
+                for mode in ("scan", "fix"):
+                    for h in holes(second, 2):
+                        out.append(self.job("c13", {"sk1": first, "holes1": [], "sk2": second, "holes2": [h], "mode": mode}, budget=120.0))
+                out.append(self.job("c13", {"sk1": first, "holes1": [], "sk2": "?", "holes2": [0], "mode": "scan", "api": True}))
+                out.append(self.job("c13", {"sk1": first, "holes1": [], "sk2": "?", "holes2": [0], "mode": "fix"}))
+            # symbolic cell in the first document, concrete second
+            for h in (1, 5):
+                out.append(self.job("c13", {"sk1": "[a]: /u\n\n# h\n", "holes1": [h], "sk2": "[a]\n", "holes2": [], "mode": "scan"}, budget=150.0))
+        else:
+            for first in _C13_FIRST:
+                for second in _C13_SECOND:
+                    for mode in ("scan", "fix"):
+                        for h in holes(second, 1):
+                            out.append(self.job("c13", {"sk1": first, "holes1": [], "sk2": second, "holes2": [h], "mode": mode}, budget=200.0))
+                    out.append(self.job("c13", {"sk1": first, "holes1": [], "sk2": second, "holes2": [0], "mode": "scan", "api": True}))
+                for h in holes(first, 3):
+                    out.append(self.job("c13", {"sk1": first, "holes1": [h], "sk2": "[a] x\n", "holes2": [4], "mode": "scan"}, budget=600.0))
+        return out
+
+    def bounds_text(self, tier):
+        return {"first documents": len(_C13_FIRST), "second documents": len(_C13_SECOND), "cells": "one symbolic cell in d2 (every second position, quick; every position, thorough); thorough: one cell in d1 and one in d2",
+                "histories": "ordered pairs in one invocation (scan, fix); one reused API object", "outside": "triples and longer histories; the inductive step over arbitrary rule-instance state is not built"}
